@@ -2656,10 +2656,18 @@ class TensorDict(TensorDictBase):
         if safe and (new_key in self.keys(include_nested=True)):
             raise KeyError(f"key {new_key} already present in TensorDict.")
 
+        value = self.get(old_key, default=NO_DEFAULT)
+        old_key_tuple = (old_key,) if isinstance(old_key, str) else old_key
+        new_key_tuple = (new_key,) if isinstance(new_key, str) else new_key
+        # eg: td.rename_("0", ("0", "1")): the entry must be detached first, otherwise it is
+        # stored inside itself and lost when the old key is deleted
+        new_under_old = new_key_tuple[: len(old_key_tuple)] == old_key_tuple
+        if new_under_old:
+            self.del_(old_key)
         if isinstance(new_key, str):
             self._set_str(
                 new_key,
-                self.get(old_key, default=NO_DEFAULT),
+                value,
                 inplace=False,
                 validated=True,
                 non_blocking=False,
@@ -2667,13 +2675,12 @@ class TensorDict(TensorDictBase):
         else:
             self._set_tuple(
                 new_key,
-                self.get(old_key, default=NO_DEFAULT),
+                value,
                 inplace=False,
                 validated=True,
                 non_blocking=False,
             )
-        new_key_tuple = (new_key,) if isinstance(new_key, str) else new_key
-        if not (
+        if not new_under_old and not (
             isinstance(old_key, tuple)
             and old_key[: len(new_key_tuple)] == new_key_tuple
         ):
